@@ -15,6 +15,7 @@ CONSTANTS NM,          \* number of models
           FileNames, Vers,
           Wild,        \* TRUE: handle arguments range over all nodes; FALSE: only plausible ones
           Emit,        \* TRUE: print one JSON line per transition (for replay on the real library)
+          AttrValues,  \* set of <<attribute name, value>> used by SetAttr / RemoveAttr
           CheckProps   \* TRUE: evaluate the property predicates on every state / transition of the specification
 
 VARIABLES st, hist
@@ -52,14 +53,17 @@ Actions(s) ==
      \cup (IF "SetRef" \in Ops THEN {[A0 EXCEPT !.op = "SetRef", !.p = p, !.c = c] : p \in {x \in N : Wild \/ KIsRef(Kind(s, x))}, c \in N} ELSE {})
      \cup (IF "SetText" \in Ops THEN UNION {{[A0 EXCEPT !.op = "SetText", !.p = p, !.val = v] : v \in TextValues(s, p)} : p \in {x \in N : Wild \/ KMode(Kind(s, x)) \in {"Characters", "Mixed"}}} ELSE {})
      \cup (IF "RemoveText" \in Ops THEN {[A0 EXCEPT !.op = "RemoveText", !.p = p] : p \in {x \in N : Wild \/ KMode(Kind(s, x)) \in {"Characters", "Mixed"}}} ELSE {})
-     \cup (IF "CreateFile" \in Ops THEN {[A0 EXCEPT !.op = "CreateFile", !.m = m, !.name = fn, !.ver = v] : m \in 1..NM, fn \in FileNames, v \in Vers} ELSE {})
-     \cup (IF "RemoveFile" \in Ops THEN {[A0 EXCEPT !.op = "RemoveFile", !.m = m, !.f = f] : m \in 1..NM, f \in Files} ELSE {})
+     \cup (IF "CreateFile" \in Ops THEN {[A0 EXCEPT !.op = "CreateFile", !.m = m, !.name = fn, !.ver = v] : m \in 1..Len(s.root), fn \in FileNames, v \in Vers} ELSE {})
+     \cup (IF "RemoveFile" \in Ops THEN {[A0 EXCEPT !.op = "RemoveFile", !.m = m, !.f = f] : m \in 1..Len(s.root), f \in Files} ELSE {})
      \cup (IF "AddToFile" \in Ops THEN {[A0 EXCEPT !.op = "AddToFile", !.p = p, !.f = f] : p \in N, f \in Files} ELSE {})
      \cup (IF "RemoveFromFile" \in Ops THEN {[A0 EXCEPT !.op = "RemoveFromFile", !.p = p, !.f = f] : p \in N, f \in Files} ELSE {})
+     \cup (IF "Duplicate" \in Ops /\ Len(s.root) < NM + 1 THEN {[A0 EXCEPT !.op = "Duplicate", !.m = m] : m \in 1..Len(s.root)} ELSE {})
+     \cup (IF "SetAttr" \in Ops THEN UNION {{[A0 EXCEPT !.op = "SetAttr", !.p = p, !.an = av[1], !.val = av[2]] : av \in AttrValues} : p \in N} ELSE {})
+     \cup (IF "RemoveAttr" \in Ops THEN {[A0 EXCEPT !.op = "RemoveAttr", !.p = p, !.an = an] : p \in N, an \in {av[1] : av \in AttrValues}} ELSE {})
      \cup (IF "SetComment" \in Ops THEN {[A0 EXCEPT !.op = "SetComment", !.p = p, !.name = cm] : p \in N, cm \in {"", "c--d"}} ELSE {})
 
 Red(s) == [n |-> s.n, f |-> s.f,
-           models |-> [m \in 1..NM |-> [root |-> s.root[m], files |-> s.files[m], idx |-> s.idx[m], refo |-> s.refo[m]]]]
+           models |-> [m \in 1..Len(s.root) |-> [root |-> s.root[m], files |-> s.files[m], idx |-> s.idx[m], refo |-> s.refo[m]]]]
 
 Init == /\ st = FixState /\ hist = <<>>
         /\ PrintT(<<"FIX", ToJson(Fix)>>)
